@@ -86,14 +86,17 @@ func checkC11(c *Ctx) {
 	}
 	for _, m := range masks {
 		jobs = append(jobs, Job{Name: fmt.Sprintf("SymbolSet/FirstSets A=%05b B=%05b", m[0], m[1]), Target: tf,
-			Run:    SymRun{Harness: "VerifC11SymbolSet", Params: map[string]int{"MASKA": m[0], "MASKB": m[1]}, LoopBound: 24, SymbolicMapOrder: true, InitExtra: []string{"sort"}},
-			Bounds: fmt.Sprintf("sets A=%05b, B=%05b over the pool {a,b,c,empty,d}; every range over a map in AddSet/Equal/FirstSets.AddSet visits its entries in an arbitrary, independently chosen order; each function run twice and compared", m[0], m[1])})
+			Run:          SymRun{Harness: "VerifC11SymbolSet", Params: map[string]int{"MASKA": m[0], "MASKB": m[1]}, LoopBound: 24, SymbolicMapOrder: true, InitExtra: []string{"sort"}},
+			ReplayParams: map[string]int{"REPEAT": 200},
+			Bounds:       fmt.Sprintf("sets A=%05b, B=%05b over the pool {a,b,c,empty,d}; every range over a map in AddSet/Equal/FirstSets.AddSet visits its entries in an arbitrary, independently chosen order; each function run twice and compared", m[0], m[1])})
 	}
 	for n := 2; n <= 3; n++ {
 		jobs = append(jobs, Job{Name: fmt.Sprintf("LexPart.TokenIds N=%d", n), Target: ta,
-			Run:    SymRun{Harness: "VerifC11TokenIds", Params: map[string]int{"N": n}, LoopBound: 24, SymbolicMapOrder: true, InitExtra: []string{"sort"}},
-			Bounds: fmt.Sprintf("%d token definitions, arbitrary iteration order of the TokDefs map in both runs", n)})
+			Run:          SymRun{Harness: "VerifC11TokenIds", Params: map[string]int{"N": n}, LoopBound: 24, SymbolicMapOrder: true, InitExtra: []string{"sort"}},
+			ReplayParams: map[string]int{"REPEAT": 200},
+			Bounds:       fmt.Sprintf("%d token definitions, arbitrary iteration order of the TokDefs map in both runs", n)})
 	}
+	jobs = append(jobs, consistentJobs()...)
 	sites, gos, err := mapRangeSites()
 	if err != nil {
 		c.Inconclusive = append(c.Inconclusive, "listing map ranges: "+err.Error())
